@@ -183,6 +183,18 @@ impl Check for RigCheck {
                     }
                 }
             }
+            // A block that panics or fails on in-domain input has not computed
+            // its function (C10/C11) nor delivered its tags (C12) either.
+            if a_failed {
+                if let Some(f) = findings.iter().find(|f| f.key.contains(":panic") || f.key.ends_with(":err")).map(|f| f.msg.clone()) {
+                    if ca.reference.is_some() {
+                        findings.push(Finding { prop: spec_prop, key: format!("{spec_prop}:{}:no-result-oneshot", ca.kind), msg: format!("no result to compare with the specification: {f}") });
+                    }
+                    if ca.tag_expect.is_some() {
+                        findings.push(Finding { prop: "C12", key: format!("C12:{}:no-result-oneshot", ca.kind), msg: format!("no tags to compare: {f}") });
+                    }
+                }
+            }
             if let Some(te) = &ca.tag_expect {
                 if !a_failed {
                     let exp = te(&ca);
@@ -201,6 +213,16 @@ impl Check for RigCheck {
             let nf = findings.len();
             let b_complete = run_drip(&mut cb, &solo, src, ctx, &opts, Some(&oracle), &mut findings, &mut stats);
             let b_fatal = findings[nf..].iter().any(|f| f.key.contains(":panic") || f.key.ends_with(":err"));
+            if b_fatal {
+                if let Some(f) = findings[nf..].iter().find(|f| f.key.contains(":panic") || f.key.ends_with(":err")).map(|f| f.msg.clone()) {
+                    if cb.reference.is_some() {
+                        findings.push(Finding { prop: spec_prop, key: format!("{spec_prop}:{}:no-result-chunked", cb.kind), msg: format!("no result to compare with the specification: {f}") });
+                    }
+                    if cb.tag_expect.is_some() {
+                        findings.push(Finding { prop: "C12", key: format!("C12:{}:no-result-chunked", cb.kind), msg: format!("no tags to compare: {f}") });
+                    }
+                }
+            }
             if stats.work_calls > 0 {
                 ctx.nontrivial = true;
             }
